@@ -432,7 +432,8 @@ def run_check(prop, title, families, tier, meta):
                 continue
             n_replayed += 1
             failed, cctx = replay_concrete(fam, r["cfg"], model)
-            reproduced = bool(failed) and (claim in failed or any(f.split(":")[0] == claim.split(":")[0] for f in failed))
+            reproduced = bool(failed) and (claim in failed or any(f.split(":")[0] == claim.split(":")[0] for f in failed)
+                                           or (claim.startswith("finite-values") and any("finite" in f for f in failed)))
             rec = {"property": prop, "module": type(fam).__module__, "family_class": type(fam).__name__,
                    "family": r["family"], "config": r["cfg"], "claim": claim, "model": model,
                    "info": info, "replay_failed_claims": failed}
@@ -450,6 +451,17 @@ def run_check(prop, title, families, tier, meta):
                 violations.append((path, rec))
             else:
                 unreplayed.append(rec)
+
+    # ---------------- optional second engine (runs in the parent process)
+    second = None
+    if meta.get("second_engine"):
+        second, extra_v = meta["second_engine"](tier)
+        for rec in extra_v:
+            path = os.path.join(VERIF, "replays", "%s_%s_%d.json" % (prop, rec["family"], len(violations)))
+            json.dump(rec, open(path, "w"), indent=1, default=str)
+            violations.append((path, rec))
+        if second.get("ran") and (second.get("inconclusive") or (second.get("refuted") and not extra_v)):
+            print("SECOND-ENGINE-INCONCLUSIVE property=%s %s" % (prop, json.dumps(second, default=str)[:300]))
 
     # ---------------- verdict lines
     for kf, claim in known_hits:
@@ -505,6 +517,7 @@ def run_check(prop, title, families, tier, meta):
                        "unknown_answers": total.unknown, "query_timeout_ms": max(f.query_timeout_ms for f in families)},
             "paths_aborted_by_assumption": total.paths_aborted, "paths_nonfinite": total.paths_nonfinite,
             "interposer_validation": {"runs": tv_done, "mismatches": len(tv_problems)},
+            "second_engine": second,
             "known_findings_hit": [k["id"] for k, _ in known_hits],
             "truncated_tasks": len(truncated), "harness_errors": len(errors), "unreplayed_candidates": len(unreplayed),
             "tasks": len(tasks), "processes": nproc,
